@@ -50,11 +50,17 @@ pub struct PartSpec {
     pub arg: Value,
     /// soft budget handed to the engine
     pub budget_s: f64,
+    /// run the part's process pinned to these CPUs (`taskset -c`): fixes `available_parallelism`, hence shard counts
+    pub cpus: Option<String>,
 }
 
 impl PartSpec {
     pub fn new(name: &str, arg: Value) -> Self {
-        PartSpec { name: name.to_string(), arg, budget_s: 0.0 }
+        PartSpec { name: name.to_string(), arg, budget_s: 0.0, cpus: None }
+    }
+    pub fn cpus(mut self, c: &str) -> Self {
+        self.cpus = Some(c.to_string());
+        self
     }
     pub fn budget(mut self, s: f64) -> Self {
         self.budget_s = s;
@@ -214,7 +220,7 @@ pub fn main(def: CheckDef) -> ! {
             ctx.replay = Some(serde_json::from_str(&std::fs::read_to_string(rp).expect("replay file")).expect("replay json"));
         }
         ctx.budget_s = arg_after(&args, "--budget").and_then(|s| s.parse().ok()).unwrap_or(1e9);
-        let spec = PartSpec { name: part, arg, budget_s: ctx.budget_s };
+        let spec = PartSpec { name: part, arg, budget_s: ctx.budget_s, cpus: None };
         let t0 = Instant::now();
         let mut res = (def.run)(&ctx, &spec);
         res.wall_s = t0.elapsed().as_secs_f64();
@@ -233,7 +239,8 @@ pub fn main(def: CheckDef) -> ! {
         let v: Value = serde_json::from_str(&std::fs::read_to_string(&rp).expect("replay file")).expect("replay json");
         let pname = v["part"].as_str().expect("replay.part").to_string();
         let parg = v["part_arg"].clone();
-        specs = vec![PartSpec { name: pname, arg: parg, budget_s: 1e9 }];
+        let cpus = (def.parts)(&ctx).into_iter().find(|p| p.name == pname).and_then(|p| p.cpus);
+        specs = vec![PartSpec { name: pname, arg: parg, budget_s: 1e9, cpus }];
         let f = run_dir.join(format!("{}-replay-{}.json", def.prop, std::process::id()));
         std::fs::write(&f, serde_json::to_vec(&v["replay"]).unwrap()).unwrap();
         replay_file = Some(f);
@@ -260,7 +267,14 @@ pub fn main(def: CheckDef) -> ! {
             let out = run_dir.join(format!("{}-{}-{}.part.json", def.prop, s.name.replace(|c: char| !c.is_ascii_alphanumeric(), "_"), std::process::id()));
             let _ = std::fs::remove_file(&out);
             let budget = if s.budget_s > 0.0 { s.budget_s } else { default_budget };
-            let mut cmd = Command::new(&exe);
+            let mut cmd = match &s.cpus {
+                Some(c) => {
+                    let mut k = Command::new("taskset");
+                    k.arg("-c").arg(c).arg(&exe);
+                    k
+                }
+                None => Command::new(&exe),
+            };
             cmd.arg("--part").arg(&s.name).arg("--arg").arg(s.arg.to_string()).arg("--out").arg(&out).arg("--budget").arg(budget.to_string())
                 .arg("--tier").arg(if ctx.quick() { "quick" } else { "thorough" })
                 .env("VERIF_ROOT", &root).stdout(Stdio::null()).stderr(Stdio::from(std::fs::File::create(out.with_extension("err")).expect("err file")));
